@@ -41,6 +41,8 @@ def run(repo, run, tier):
     # end time not smaller than the query (a table cast to the dtype of integer queries truncates the end times)
     from .c17 import bisection_vec
     bisection_vec(repo, run, tier, rule_id="C06.14")
+    dense_lookup_is_the_interpolant(repo, run)
+    piece_store_single_writer(repo, run)
 
 
 # ------------------------------------------------------------------------------------------------
@@ -569,3 +571,92 @@ def hermite_time_arithmetic(repo, run, rule_id):
             run.report(rule_id, INTERP, v.node, "%s (operand kinds %s): the normalised coordinate of a query must be (t - t0)/(t1 - t0), a difference of "
                        "absolute times over the step; any other use of an absolute time makes the piece depend on the position of the step on the time axis "
                        "(cancellation of size eps*|t|/h for runs far from t = 0)" % (v.why, "/".join(str(k) for k in (v.kinds or ()))))
+
+
+# ------------------------------------------------------------------------------------------------
+def dense_lookup_is_the_interpolant(repo, run):
+    """'every query inside the integrated range is answered by the interpolant of the step that contains it': with dense output kept, a time lookup `system[t]` returns
+    the dense solution at t on EVERY path of that branch.  A recorded row substituted inside a tolerance window around a grid time is the nearest SAMPLE, an O(h) answer,
+    for every query once the step is shorter than the window (absolute windows: runs on tiny time scales, narrow dtypes)."""
+    rid = run.rule("C06.15", "OdeSystem.__getitem__, branch taken when dense output is kept: every return is StateTuple(t=<query>, y=self.sol(<query>)): no path answers a time "
+                             "lookup with a recorded row", floor=1)
+    fn = repo.get(DS, "OdeSystem.__getitem__")
+    run.analysed_fn(DS, fn)
+    idx = [a.arg for a in fn.args.args][1]
+    # the returns of the dense branch, whatever the arrangement of the branches: reachable when dense output is kept AND unreachable when it is not
+    from .common import reachable_under
+    from ..sym import Canon as _Canon
+
+    def fix_with(dense):
+        def fix(leaf):
+            txt = src(leaf) if isinstance(leaf, ast.AST) else (" ".join(src(x) if isinstance(x, ast.AST) else type(x).__name__ for x in leaf) if isinstance(leaf, tuple) else "")
+            if isinstance(leaf, ast.AST) and "dense_output" in txt:
+                return dense
+            if isinstance(leaf, tuple):
+                l, op, r = leaf
+                if "sol" in src(l) + src(r) and isinstance(op, (ast.IsNot, ast.Is)):
+                    return dense if isinstance(op, ast.IsNot) else not dense
+            return None
+        return fix
+    rets = [r for r in walk_no_nested(fn) if isinstance(r, ast.Return) and r.value is not None]
+    dense_rets = []
+    for r in rets:
+        if not any(isinstance(a, ast.If) and "dense_output" in src(a.test) for a in ancestors(r)):
+            continue
+        on, _ = reachable_under(r, fn, _Canon(), fix_with(True))
+        off, _ = reachable_under(r, fn, _Canon(), fix_with(False))
+        if on and not off:
+            dense_rets.append(r)
+    if not dense_rets:
+        raise AnalysisError("__getitem__: the returns of the branch for kept dense output were not found")
+    for r in dense_rets:
+        v = r.value
+        kw = {k.arg: src(k.value) for k in v.keywords} if isinstance(v, ast.Call) and dotted(v.func) == "StateTuple" else {}
+        ok = kw.get("t") == idx and kw.get("y") in ("self.sol(%s)" % idx, "self.__sol(%s)" % idx)
+        run.judged(rid, "dense branch returns %s" % src(v)[:80], ok=ok)
+        if not ok:
+            run.report("C06.15", DS, r, "with dense output kept, this path answers the time lookup with `%s` instead of the dense solution at the query: a recorded row returned "
+                       "inside a tolerance window is the nearest sample, not the interpolant of the containing step, for every query once the steps are shorter than the "
+                       "window (absolute tolerance: runs on tiny time scales, float32/float16 states)" % src(v)[:70])
+
+
+
+# ------------------------------------------------------------------------------------------------
+def piece_store_single_writer(repo, run, rule_id="C06.16"):
+    """The lookup bisects `t_eval`: every piece has to enter the store through the ONE place that decides front / back from the stored end times (the single-piece
+    branch of add_interpolant: the mirrored insert(0) / append pair, or the first-piece initialisation).  A list of pieces (the sub-steps of a Richardson step) is added
+    one by one through that branch; splicing a whole batch in directly puts the sub-steps of a backward step in stepping (descending) order, t_eval is locally
+    unsorted and queries are answered by a neighbouring sub-interval."""
+    rid = run.rule(rule_id, "who-may-write: in add_interpolant the piece lists are changed only by the mirrored insert(0)/append pair, the first-piece initialisation and an "
+                            "order-preserving elementwise re-binding; a list argument is added element by element through that path", floor=1)
+    add = repo.get(DS, "DenseOutput.add_interpolant")
+    run.analysed_fn(DS, add)
+    LISTS = ("t_eval", "y_interpolants")
+    muts = []
+    for x in ast.walk(add):
+        if isinstance(x, ast.Call) and isinstance(x.func, ast.Attribute) and is_self_attr(x.func.value) and x.func.value.attr in LISTS and \
+                x.func.attr in ("insert", "append", "extend", "pop", "remove", "sort", "reverse", "clear", "__setitem__"):
+            muts.append((x, "%s.%s" % (x.func.value.attr, x.func.attr)))
+        if isinstance(x, (ast.Assign, ast.AugAssign)):
+            for t in (x.targets if isinstance(x, ast.Assign) else [x.target]):
+                if isinstance(t, ast.Subscript) and is_self_attr(t.value) and t.value.attr in LISTS:
+                    muts.append((x, "%s[%s] store" % (t.value.attr, src(t.slice))))
+                if is_self_attr(t) and t.attr in LISTS:
+                    v = x.value if isinstance(x, ast.Assign) else None
+                    elementwise = isinstance(v, ast.ListComp) and len(v.generators) == 1 and is_self_attr(v.generators[0].iter) and v.generators[0].iter.attr == t.attr and not v.generators[0].ifs
+                    single = isinstance(v, ast.List) and len(v.elts) == 1
+                    if not (elementwise or single):
+                        muts.append((x, "%s rebound to %s" % (t.attr, src(v)[:40] if v is not None else "?")))
+    bad = []
+    for x, what in muts:
+        if what.endswith(".insert") or what.endswith(".append"):
+            iff = next((a for a in ancestors(x) if isinstance(a, ast.If) and any(
+                isinstance(n, ast.Subscript) and is_self_attr(n.value, "t_eval") for n in ast.walk(a.test))), None)
+            if iff is not None:
+                continue
+        bad.append((x, what))
+    run.judged(rid, "mutations of the piece lists in add_interpolant: %s" % [w for _, w in muts], ok=not bad)
+    for x, what in bad:
+        run.report(rule_id, DS, x, "add_interpolant changes the piece lists by `%s` outside the branch that decides the position from the stored end times: pieces spliced in as a "
+                   "batch keep their stepping order (descending for a backward step), so `t_eval`, which every lookup bisects, is no longer sorted and queries inside the "
+                   "step are answered by a neighbouring sub-interval" % what)
